@@ -8,11 +8,11 @@ PKG = MODULE + '/' + REL
 HDIR = os.path.join(HARNESS, REL)
 
 
-def files(sc, n):
+def files(sc, n, fn=None):
     fs = [os.path.join(HDIR, f) for f in sorted(os.listdir(HDIR)) if f.startswith('zz_verif_') and f.endswith('.go') and not f.endswith('_test.go')]
     par = sc.path('zz_verif_params.go')
     with open(par, 'w') as f:
-        f.write('//go:build verif\n\npackage nfa\n\nconst c09N = %d\n' % n)
+        f.write('//go:build verif\n\npackage nfa\n\nconst c09N = %d\nconst c09FrameN = %d\n' % (n, fn if fn is not None else n))
     return fs + [par]
 
 
@@ -48,9 +48,13 @@ def run(tier, rep):
     thorough = tier == 'thorough'
     N = 5 if thorough else 4
     with Scratch() as sc:
-        fs = files(sc, N)
+        FN = 6 if thorough else 5
+        fs = files(sc, N, FN)
         res = run_gosym(cfg(fs, 'harnessC09Whole', tier), sc, 'whole', timeout=6 * 3600)
         merge_gosym(rep, res, 'nfa.Parse + real combinator parser on every printable-ASCII text of <= %d characters: accepted => whole text is a sentence of the documented grammar' % N)
+        handle(rep, res, fs, sc)
+        res = run_gosym(cfg(fs, 'harnessC09Framed', tier), sc, 'framed', timeout=6 * 3600)
+        merge_gosym(rep, res, 'the same on 14 fixed frames (\\p{..}, [[:..:]], a{..}, \\x.., groups) around every printable-ASCII text of <= %d characters' % FN)
         handle(rep, res, fs, sc)
         res = run_gosym(cfg(fs, 'harnessC09Meaningless', tier), sc, 'meaningless')
         merge_gosym(rep, res, 'descending ranges [x-y], [^x-y] and repetition ranges a{n,m}: accepted iff meaningful, error names the problem')
